@@ -666,17 +666,32 @@ def _make_sig_class(sig):
     return ns["M"], src
 
 
+_MESSAGES = []
+
+
+def _check_messages():
+    """(literal beginning of the message, error code) of every ValueError of _check_model_params, re-read from the
+    source under test by the T1 translator (codes come from WHERE the raise stands): rewording a message changes nothing"""
+    if not _MESSAGES:
+        import importlib.util
+        import os
+
+        path = os.path.join(os.path.dirname(os.path.dirname(os.path.abspath(__file__))), "tables", "viz_code.py")
+        spec = importlib.util.spec_from_file_location("tables_viz_code_for_c20", path)
+        m = importlib.util.module_from_spec(spec)
+        spec.loader.exec_module(m)
+        _MESSAGES.extend(m.check_messages() or [("requires the use of keyword arguments", E_VARARGS), ("Missing required model parameter", E_MISSING),
+                                                 ("Invalid model parameter", E_INVALID), ("Positional-only model parameter", E_POSONLY)])
+    return _MESSAGES
+
+
 def _check_kind(e):
     s = str(e)
-    if "requires the use of keyword arguments" in s:
-        return E_VARARGS
-    if "Missing required model parameter" in s:
-        return E_MISSING
-    if "Invalid model parameter" in s:
-        return E_INVALID
-    if "ositional-only" in s:
-        return E_POSONLY
-    return 99
+    best = None
+    for prefix, code in _check_messages():
+        if prefix and s.startswith(prefix) and (best is None or len(prefix) > len(best[0])):
+            best = (prefix, code)
+    return best[1] if best else 99
 
 
 def run_impl(case):
